@@ -74,6 +74,12 @@ def build_stream(cl, pl, tid, kinds_shift=0, head_region=False, foreign=False):
     evs = []
     outer = BASE
     mx = BASE
+    if head_region:
+        # the opening marker carries the time at which the region was opened, later than the (delayed) events inside:
+        # they all belong before the very first event of the stream
+        outer = mx = BASE + 5
+    first_end = sorted(pl)[0][1] if (head_region and pl) else 0
+    late = (lambda p: 6 if (head_region and p >= first_end) else 0)      # what follows that region comes after its markers
     x = ("OHx", BASE, i32(-1, tid) + i64(0), None)
     placed_x = False
     if not head_region:
@@ -82,7 +88,7 @@ def build_stream(cl, pl, tid, kinds_shift=0, head_region=False, foreign=False):
     pos = 0
     for (a, b) in sorted(pl):
         while pos < a:
-            c = BASE + cl[pos]
+            c = BASE + cl[pos] + late(pos)
             evs.append(mk_ev(KINDS[(pos + kinds_shift) % 3], c, pos + 1, foreign))
             mx = max(mx, c)
             outer = c
@@ -92,14 +98,14 @@ def build_stream(cl, pl, tid, kinds_shift=0, head_region=False, foreign=False):
             evs.append(x)
             placed_x = True
         while pos < b:
-            c = BASE + cl[pos]
+            c = BASE + cl[pos] + late(pos)
             evs.append(mk_ev(KINDS[(pos + kinds_shift) % 3], c, pos + 1, foreign))
             mx = max(mx, c)
             pos += 1
         outer = max(outer, mx)
         evs.append(("OU]", outer, b"", None))
     while pos < len(cl):
-        c = BASE + cl[pos]
+        c = BASE + cl[pos] + late(pos)
         evs.append(mk_ev(KINDS[(pos + kinds_shift) % 3], c, pos + 1, foreign))
         mx = max(mx, c)
         outer = c
